@@ -54,7 +54,8 @@ func verifInvC07(s *Server, g []*verifInflight, what string) {
 // Harness_C07_step: one step from an arbitrary invariant-satisfying state.
 func Harness_C07_step() {
 	log := &verifLog{gates: map[string]chan struct{}{}}
-	mux := verifMap{"ok": log.handler("ok", nil, nil), "err": log.handler("err", nil, Errorf(Code(-5), "failed"))}
+	// the failing handler's error code is arbitrary (also -32600 / -32700 / -32601)
+	mux := verifMap{"ok": log.handler("ok", nil, nil), "err": log.handler("err", nil, Errorf(Code(nondetInt32("handler-code")), "failed"))}
 	s := NewServer(mux, &ServerOptions{Concurrency: 4, DisableBuiltin: nondetBool("nobuiltin")})
 	rec := &verifRecorder{}
 	s.ch = rec
